@@ -2116,3 +2116,87 @@ package main
 //@   modifies maps
 //@   requires carve-out-F11-no-recursive-record-type: records_wellfounded()
 //@   panics may
+
+// ---------------------------------------------------------------------------------------------
+// C06, blocks: a block is the statements parsed while the current token is not left of the block's
+// column (the column of its first token, which must be right of the enclosing offside line), and not at
+// EOF or `)`; the offside stack is restored; the last statement must be an expression.
+// ---------------------------------------------------------------------------------------------
+
+//@ func parseStmtList
+//@   props C06
+//@   modifies maps
+//@   requires live: live(ps)
+//@   requires offside-stack-non-empty: len(ps.offsideCol) >= 1
+//@   requires expression-parser-keeps: forall p ParseState :: {pExpr(p)} live(p) ==> live(pExpr(p).E0) && samebuf(pExpr(p).E0, p) && pExpr(p).E0.offsideCol == p.offsideCol && pExpr(p).E0.scope == p.scope
+//@   requires let-parser-keeps: forall p ParseState :: {pLet(p)} live(p) ==> live(pLet(p).E0) && samebuf(pLet(p).E0, p) && pLet(p).E0.offsideCol == p.offsideCol && pLet(p).E0.scope == p.scope
+//@   panics may
+//@   ensures block-ends-left-of-its-column-or-at-the-end: result.E0.tkz.col < result.E0.offsideCol[len(result.E0.offsideCol) - 1] || result.E0.tkz.current.ttype == New_TokenType_EOF || result.E0.tkz.current.ttype == New_TokenType_RPAREN
+//@   ensures at-least-one-statement: len(result.E1) >= 1
+//@   ensures kept: live(result.E0) && samebuf(result.E0, ps) && result.E0.offsideCol == ps.offsideCol && result.E0.scope == ps.scope
+//@   ensures not-at-a-line-end: result.E0.tkz.current.ttype != New_TokenType_EOL
+//@   inline-call ParseList2#0
+//@   loop ParseList2#0/0:
+//@     invariant kept: live(ps) && samebuf(ps, old(ps)) && ps.offsideCol == old(ps).offsideCol && ps.scope == old(ps).scope
+//@     invariant some: len(res) >= 1
+//@     invariant not-eol: ps.tkz.current.ttype != New_TokenType_EOL
+
+//@ func parseBlockAfterPushScope
+//@   props C06
+//@   modifies maps
+//@   requires live: live(ps)
+//@   requires expression-parser-keeps: forall p ParseState :: {pExpr(p)} live(p) ==> live(pExpr(p).E0) && samebuf(pExpr(p).E0, p) && pExpr(p).E0.offsideCol == p.offsideCol && pExpr(p).E0.scope == p.scope
+//@   requires let-parser-keeps: forall p ParseState :: {pLet(p)} live(p) ==> live(pLet(p).E0) && samebuf(pLet(p).E0, p) && pLet(p).E0.offsideCol == p.offsideCol && pLet(p).E0.scope == p.scope
+//@   panics may
+//@   ensures block-column-right-of-the-offside-line: len(ps.offsideCol) >= 1 && ps.offsideCol[len(ps.offsideCol) - 1] < ps.tkz.col
+//@   ensures block-ends-left-of-its-column-or-at-the-end: result.E0.tkz.col < ps.tkz.col || result.E0.tkz.current.ttype == New_TokenType_EOF || result.E0.tkz.current.ttype == New_TokenType_RPAREN
+//@   ensures offside-stack-restored: len(result.E0.offsideCol) == len(ps.offsideCol) && (forall k int :: 0 <= k && k < len(ps.offsideCol) ==> result.E0.offsideCol[k] == ps.offsideCol[k])
+//@   ensures scope-popped: result.E0.scope == scparent(ps.scope)
+//@   ensures live: live(result.E0) && samebuf(result.E0, ps)
+
+// ---------------------------------------------------------------------------------------------
+// C09, emission of a union match: `switch [tmp := ](target).(type){` + one `case U_C:` per arm in source
+// order (binding `x := tmp.Value` when the arm has a variable) + the default arm if there is one, and
+// otherwise the fallback `default: panic("Union pattern fail. Never reached here.")` + `}`.
+// ---------------------------------------------------------------------------------------------
+
+//@ func umpToCaseHeader
+//@   props C09
+//@   panics never
+//@   returns "case " + uname + "_" + ump.CaseId + ":\n" + ite(ump.VarName != "_" && ump.VarName != "", ump.VarName + " := " + tmpVarName + ".Value\n", "")
+
+//@ func umrToCase
+//@   props C09
+//@   panics never
+//@   returns "case " + uname + "_" + umr.UnionPattern.CaseId + ":\n" + ite(umr.UnionPattern.VarName != "_" && umr.UnionPattern.VarName != "", umr.UnionPattern.VarName + " := " + tmpVarName + ".Value\n", "") + btogRet(umr.Body) + "\n"
+
+//@ func drToCase
+//@   props C09
+//@   panics never
+//@   returns "default:\n" + btogRet(db) + "\n"
+
+//@ func umrHasNoCaseVar
+//@   props C09
+//@   panics never
+//@   returns umr.UnionPattern.VarName == "" || umr.UnionPattern.VarName == "_"
+
+//@ func utName
+//@   props C09
+//@   panics never
+//@   returns ut.Name
+
+//@ func umrToGoReturn
+//@   props C09
+//@   ghost TMP string            -- the temporary the scrutinee is bound to (only when some arm has a variable)
+//@   ghost HV bool               -- some arm binds its payload
+//@   ghost CS []string           -- the emitted cases
+//@   ghost US []UnionMatchRule   -- the arms
+//@   panics may
+//@   ensures arms: (is(UnionMatchRules_UCaseOnly, rules) ==> US == UnionMatchRules_UCaseOnly_Value(rules)) && (is(UnionMatchRules_UCaseWD, rules) ==> US == UnionMatchRules_UCaseWD_Value(rules).Unions)
+//@   ensures one-case-per-arm-in-order: forall k int :: 0 <= k && k < len(US) ==> CS[k] == "case " + FType_FUnion_Value(exprtype(target)).Name + "_" + US[k].UnionPattern.CaseId + ":\n" + ite(US[k].UnionPattern.VarName != "_" && US[k].UnionPattern.VarName != "", US[k].UnionPattern.VarName + " := " + TMP + ".Value\n", "") + btogRet(US[k].Body) + "\n"
+//@   ensures text: result == "switch " + ite(HV, TMP + " := ", "") + "(" + toGo(target) + ").(type){\n" + join_prefix(CS, "", len(US)) + ite(is(UnionMatchRules_UCaseOnly, rules), "default:\npanic(\"Union pattern fail. Never reached here.\")\n", "default:\n" + btogRet(UnionMatchRules_UCaseWD_Value(rules).Default) + "\n") + "}"
+//@   ensures tmp-only-when-some-arm-binds: !HV ==> TMP == ""
+//@   at after call umrHasCaseVar#0: HV = ret
+//@   at before call buf.New#0: TMP = tmpVarName
+//@   at after call slice.Map#0: CS = ret
+//@   at before call slice.Map#0: US = _r0
